@@ -1,5 +1,5 @@
 (* C08 — wheel python/ABI compatibility = the side conditions on implementation / ABI hold
-   and some position admitted by requires_python can load the wheel.
+   and some position allowed by requires_python can load the wheel.
    Model: Model/Tags.v (hand-written; S-tags stream) on top of the GENERATED `&` and
    is_empty, whose exactness (C01, C05) is what turns "the intersection is not reported
    empty" into "there is a common position". *)
